@@ -5558,6 +5558,8 @@ class RemoteBranch(branch.Branch, _RpcHelper, lock._RelockDebugMixin):
     @only_raises(errors.LockNotHeld, errors.LockBroken)
     def unlock(self):
         """Release the lock on this branch."""
+        if not self._lock_count:
+            return lock.cant_unlock_not_held(self)
         try:
             self._lock_count -= 1
             if not self._lock_count:
